@@ -24,6 +24,12 @@ type hist struct {
 	// name index must be usable as it is, without the caller refreshing it
 	indexFresh bool
 	cloneFresh bool // set by the Clone op for the step that follows
+	// a rearrangement applied earlier and not yet undone, the tree object it belongs to, and whether every edit
+	// since has kept the unrooted shape (re-rooting at a node, rotating, sorting, decorating only)
+	pending   tree.Rearrangement
+	pendingOn *tree.Tree
+	pendingOK bool
+	forceKeep bool // the next NNI is kept for a later Undo
 }
 
 type opFn func(h *hist) (desc string, err error, applicable bool)
@@ -348,11 +354,32 @@ var opTable = []opDef{
 		k := h.r.Intn(len(rs))
 		err := rs[k].Apply()
 		d := fmt.Sprintf("NNI#%d.Apply", k)
-		if err == nil && h.r.Intn(3) == 0 {
-			err = rs[k].Undo()
-			d += "+Undo"
+		if err == nil {
+			choice := h.r.Intn(3)
+			if h.forceKeep {
+				choice = 1
+			}
+			switch choice {
+			case 0:
+				err = rs[k].Undo()
+				d += "+Undo"
+			case 1:
+				// keep it: it is undone later, after other edits of the same tree object
+				h.pending, h.pendingOn = rs[k], h.t
+				d += " (kept for a later Undo)"
+			}
 		}
 		return d, err, true
+	}},
+	{"NNI.UndoLater", 4, func(h *hist) (string, error, bool) {
+		// undo a rearrangement applied some steps ago, if the history still works on the same tree object
+		// and its shape has only been re-rooted / re-ordered since (h.pendingOK is cleared by every other edit)
+		if h.pending == nil || h.pendingOn != h.t || !h.pendingOK {
+			return "", nil, false
+		}
+		err := h.pending.Undo()
+		h.pending = nil
+		return "NNI.Undo (of the rearrangement kept earlier)", err, true
 	}},
 	{"Rename", 2, func(h *hist) (string, error, bool) {
 		tips := tipNames(h.t)
@@ -535,6 +562,14 @@ func (h *hist) step() (name, desc string, ok bool) {
 			continue
 		}
 		h.indexFresh = h.cloneFresh // any other edit ends the "as handed over" state
+		switch op.name {
+		case "NNI":
+			h.pendingOK = h.pending != nil
+		case "Reroot", "RotateInternalNodes", "RotateNeighbors", "SortNeighborsByTips", "Decorate", "Scale", "NNI.UndoLater":
+			// the four subtrees around the rearranged branch are still there
+		default:
+			h.pendingOK = false
+		}
 		if err != nil {
 			h.t, h.singles = backup, bs
 			h.log = append(h.log, d+" -> error: "+Trunc(err.Error(), 80))
